@@ -1,8 +1,8 @@
 # Aggregates (C03): every aggregator keeps, per group key, a statistic that equals the mathematical aggregate of the
 # values passed for that key so far (ghost history `hist`), numbers as reals (A-FLOAT).  DESIGN Appendix B.8.
 
-classdef('rbql_engine.NumHandler', fields=dict(is_int=Bool, string_detection_done=Bool, is_str=Bool))
-classdef('rbql_engine.Aggregator', ghost=dict(hist=Map[Key, Seq[Cell]]))
+classdef('rbql_engine.NumHandler', family='aggregator', fields=dict(is_int=Bool, string_detection_done=Bool, is_str=Bool))
+classdef('rbql_engine.Aggregator', family='aggregator', ghost=dict(hist=Map[Key, Seq[Cell]], finalv=Map[Key, Cell]))
 
 
 @pred
@@ -343,3 +343,18 @@ def _(self: Obj['rbql_engine.ConstGroupVerifier'], key: Key, value: Cell):
     ensures(implies(has_key(old(self.const_values), key), py_equal(old(self.const_values)[key], value)), 'accepted_only_if_equal_to_the_group_value')
     raises('rbql_engine.RbqlRuntimeError', has_key(old(self.const_values), key) and not py_equal(old(self.const_values)[key], value), 'fails_on_a_different_value')
     modifies(field(self, 'hist'), self.const_values)
+
+
+
+# ---------------------------------------------------------------- interface used through dynamic dispatch (select_aggregated, AggregateWriter)
+@contract('rbql_engine.Aggregator.increment', name='IF.aggregator.increment', trusted='interface contract of aggregators: increment appends the value to the history of its key and touches no other aggregator (each class proves its own statistic against that history; class invariants are abstracted: A-AGG-VALID)')
+def _(self: Obj['rbql_engine.Aggregator'], key: Key, val: Cell):
+    ensures(self.hist == map_set(old(self.hist), key, old(self.hist)[key] + [val]), 'history_extended')
+    raises('rbql_engine.RbqlRuntimeError', True, 'value_rejected')
+    modifies(field(self, 'hist'), field(self, 'finalv'), family('aggregator'))
+
+
+@contract('rbql_engine.Aggregator.get_final', name='IF.aggregator.get_final', trusted='interface contract: get_final(key) is the aggregate value of the history of key (finalv), proved per class as C03.*.final; A-AGG-VALID')
+def _(self: Obj['rbql_engine.Aggregator'], key: Key) -> Cell:
+    requires(len(self.hist[key]) >= 1, 'group_not_empty')
+    ensures(result == self.finalv[key], 'final_value_of_group')
